@@ -1,6 +1,6 @@
 (* C04 — property theorems only (byte-level model of the fixed-point text functions). *)
 From Coq Require Import ZArith List Bool Lia.
-From Verif Require Import common.Word64 C03.Model C03.Proofs C04.Model C04.Proofs C04.ProofsRT.
+From Verif Require Import common.Word64 C03.Model C03.Proofs C04.Model C04.Proofs C04.ProofsRT C04.ProofsLit.
 Import ListNotations.
 Open Scope Z_scope.
 
@@ -51,6 +51,25 @@ Theorem C04_quoted_roundtrip : forall places, (1 <= places <= 16)%nat -> forall 
   fx_from_string places wide (unquote (34 :: fx_string places v ++ [34])) = POk v.
 Proof. intros places Hp wide v H. rewrite unquote_quote. apply roundtrip; assumption. Qed.
 Print Assumptions C04_quoted_roundtrip.
+(* ---- plain decimal literals: optional sign (a '+' needs an integer part), optional integer part A, optional fraction B of any
+   length (digit strings; val = the number they denote). FromString returns the number truncated toward zero to D places:
+   sign * (val A * 10^D + floor (val B * 10^D / 10^|B|)) - saturated for f128, and for f64 whenever that value is an int64. ---- *)
+Theorem C04_literal_truncates_toward_zero : forall places, (1 <= places <= 16)%nat -> forall (wide : bool) sg A B,
+  Forall digitc A -> Forall digitc B -> sign_ok sg A -> (wide = false -> fits (litval places A B)) ->
+  fx_from_string places wide (sg ++ A ++ 46 :: B) = POk (if wide then clamp128 (signed sg (litval places A B)) else signed sg (litval places A B)).
+Proof. exact literal_with_fraction. Qed.
+Print Assumptions C04_literal_truncates_toward_zero.
+Theorem C04_integer_literal : forall places, (1 <= places <= 16)%nat -> forall (wide : bool) sg A,
+  Forall digitc A -> A <> [] -> sign_ok sg A -> (wide = false -> fits (val A * mult places)) ->
+  fx_from_string places wide (sg ++ A) = POk (if wide then clamp128 (signed sg (val A * mult places)) else signed sg (val A * mult places)).
+Proof. exact literal_integer. Qed.
+Print Assumptions C04_integer_literal.
+(* non-vacuity: -.129 in D2 is -0.12, 7.5 in D1 is 7.5, +12.3456 in D2 is 12.34 *)
+Example C04_ex_literals :
+  fx_from_string 2 false ([45] ++ [] ++ 46 :: [49; 50; 57]) = POk (-12) /\ fx_from_string 1 true ([] ++ [55] ++ 46 :: [53]) = POk 75 /\
+  fx_from_string 2 false ([43] ++ [49; 50] ++ 46 :: [51; 52; 53; 54]) = POk 1234.
+Proof. repeat split; reflexivity. Qed.
+
 (* non-vacuity: the extreme values meet fitsw *)
 Example C04_ex_fitsw : fitsw false (- SIGN) /\ fitsw false (SIGN - 1) /\ fitsw true (- P127) /\ fitsw true (P127 - 1).
 Proof. unfold fitsw, fits. repeat split; lia. Qed.
